@@ -37,6 +37,7 @@ pub struct Outcome {
     pub failures: Vec<Failure>,
     pub f64_order_dependence: u64,
     pub threshold_adjacent: u64,
+    pub projections: u64,
     pub f64_max_abs_err: f64,
     pub bridge_lowered: u64,
     pub rival_ineligible_unlisted: u64,
@@ -71,6 +72,10 @@ fn compare_lines(model: &str, imp: &str, adj: bool) -> Option<String> {
                 return Some(d);
             }
         }
+        return None;
+    }
+    if model.starts_with("slot accepted=") && imp.starts_with("slot accepted=") && adj {
+        // derived from statuses that sit on a threshold: checked against the reported statuses by the oracle
         return None;
     }
     let (Some(m), Some(i)) = (Ans::parse(model), Ans::parse(imp)) else {
@@ -164,7 +169,20 @@ fn check_case(world: &mut World, model: &mut Option<ModelProc>, lines: &[String]
             continue;
         }
         let Some(ex) = ex else { continue };
-        let answers: Vec<&str> = io.split(" | ").collect();
+        let mut answers: Vec<&str> = io.split(" | ").collect();
+        // the slot summary must follow from the candidate projections the same answer reports
+        if let Some(last) = answers.last().copied() && last.starts_with("slot accepted=") {
+            answers.pop();
+            let parsed_answers: Vec<Ans> = answers.iter().filter_map(|a| Ans::parse(a)).collect();
+            let accepted: Vec<usize> = parsed_answers.iter().filter(|a| a.st == "accepted").filter_map(|a| a.prop).collect();
+            let contested = accepted.len() > 1 || parsed_answers.iter().any(|a| a.st == "contested");
+            let want = format!("slot accepted={} contested={}", show_list(&accepted), contested as u8);
+            out.hits.push(format!("branch:slot-contested:{}", contested as u8));
+            out.hits.push(format!("branch:slot-accepted:{}", accepted.len().min(2)));
+            if last != want {
+                fail(&mut out, "slot-summary", format!("the slot's accepted values / contested flag do not follow from its candidate projections at op #{k}"), want, last.to_string());
+            }
+        }
         if answers.len() != ex.len() {
             if !(ex.is_empty() && io == "-") {
                 fail(&mut out, "slot-size", format!("slot projection size at op #{k}"), format!("{}", ex.len()), io.clone());
@@ -187,6 +205,7 @@ fn check_case(world: &mut World, model: &mut Option<ModelProc>, lines: &[String]
             for (_, r) in &ans.x {
                 out.hits.push(format!("excluded:{r}"));
             }
+            out.projections += 1;
             if e.threshold_adjacent {
                 out.threshold_adjacent += 1;
             }
@@ -200,6 +219,12 @@ fn check_case(world: &mut World, model: &mut Option<ModelProc>, lines: &[String]
     for op in &parsed {
         out.hits.push(format!("op:{}", op.name()));
     }
+    for (op, line) in parsed.iter().zip(imp.iter()) {
+        if matches!(op, Op::Settings { .. }) {
+            out.hits.push(format!("branch:settings:{}", line.split(' ').next().unwrap_or("?")));
+        }
+    }
+    out.hits.extend(branch_hits(&parsed));
     if !any_answer {
         return out;
     }
@@ -458,6 +483,51 @@ fn check_answer(out: &mut Outcome, k: usize, line: &str, ans: &Ans, e: &Expect) 
     }
 }
 
+/// Which branches of the model this history drives (for the coverage histogram; not an oracle).
+fn branch_hits(parsed: &[Op]) -> Vec<String> {
+    let mut hits = Vec::new();
+    let st = oracle_state(parsed);
+    let Some(Op::Project(target)) = parsed.iter().rev().find(|o| matches!(o, Op::Project(_))).cloned() else { return hits };
+    let den = st.policy.den as i64;
+    hits.push(format!("branch:functional:{}", st.functional as u8));
+    hits.push(format!("branch:expand:{}", st.policy.expand as u8));
+    hits.push(format!("branch:rivals:{}", st.rivals(target).len().min(2)));
+    for r in &st.rows {
+        if st.eligible(r).is_ok() {
+            hits.push("branch:eligible".into());
+            if r.conf < 0 { hits.push("branch:conf-unstated".into()) }
+            let eff = if r.conf < 0 { st.policy.unstated } else { r.conf };
+            if eff > den { hits.push("branch:conf-clamped-high".into()) }
+            if eff < 0 { hits.push("branch:conf-clamped-low".into()) }
+            if r.actor.is_none() { hits.push("branch:actor-anonymous".into()) }
+            match (r.from, r.until) {
+                (Some(_), Some(_)) => hits.push("branch:window-both".into()),
+                (Some(_), None) => hits.push("branch:window-from".into()),
+                (None, Some(_)) => hits.push("branch:window-until".into()),
+                _ => {}
+            }
+        }
+    }
+    // the merge loop: how many existing groups each candidate touches when it arrives
+    for opposing in [false, true] {
+        let members: Vec<usize> = st.eligible_rows(target).into_iter().filter(|(_, o)| *o == opposing).map(|(i, _)| i).collect();
+        let mut groups: Vec<std::collections::BTreeSet<String>> = Vec::new();
+        for i in members {
+            let r = &st.rows[i];
+            let mut keys: std::collections::BTreeSet<String> = std::collections::BTreeSet::new();
+            keys.insert(match r.actor { Some(a) => format!("actor:{a}"), None => format!("anon:{i}") });
+            keys.extend(r.evs.iter().map(|e| format!("evidence:{e}")));
+            let (hit, miss): (Vec<_>, Vec<_>) = groups.into_iter().partition(|g| g.intersection(&keys).next().is_some());
+            hits.push(format!("branch:merge-touches:{}", hit.len().min(3)));
+            let mut merged = keys;
+            for g in hit { merged.extend(g) }
+            groups = miss;
+            groups.push(merged);
+        }
+    }
+    hits
+}
+
 fn all_perms(n: usize) -> Vec<Vec<usize>> {
     fn rec(cur: &mut Vec<usize>, used: &mut Vec<bool>, n: usize, out: &mut Vec<Vec<usize>>) {
         if cur.len() == n {
@@ -623,6 +693,7 @@ fn main() {
 
     let mut f64_order_dependence = 0u64;
     let mut threshold_adjacent = 0u64;
+    let mut projections = 0u64;
     let mut bridge_lowered = 0u64;
     let mut rival_unlisted = 0u64;
     let mut impl_runs = 0u64;
@@ -649,6 +720,7 @@ fn main() {
         }
         f64_order_dependence += out.f64_order_dependence;
         threshold_adjacent += out.threshold_adjacent;
+        projections += out.projections;
         bridge_lowered += out.bridge_lowered;
         rival_unlisted += out.rival_ineligible_unlisted;
         impl_runs += out.impl_runs;
@@ -678,6 +750,7 @@ fn main() {
     report.exhaustive = false;
     report.measured.insert("f64_answers_differing_between_recording_orders_within_1e-9".into(), json!(f64_order_dependence));
     report.measured.insert("projections_with_an_exact_score_on_a_threshold(status_not_compared_with_model)".into(), json!(threshold_adjacent));
+    report.measured.insert("projections_checked_in_all".into(), json!(projections));
     report.measured.insert("max_abs_difference_f64_score_vs_exact_rational".into(), json!(max_err));
     report.measured.insert("bridging_repetitions_that_lowered_the_score".into(), json!(bridge_lowered));
     report.measured.insert("ineligible_rival_assertions_not_listed_as_excluded".into(), json!(rival_unlisted));
